@@ -8,6 +8,7 @@ package main
 import (
 	"fmt"
 	"math/rand"
+	"strings"
 
 	didtypes "github.com/SaoNetwork/sao/x/did/types"
 )
@@ -291,6 +292,12 @@ func (w *didWorld) payAddr(mut string) {
 		accId := accountIdOf(target)
 		if mut == "other-chain" {
 			accId = "cosmos:elsewhere:" + target.Bech()
+		}
+		// an account of another network that is bound to this sid
+		for _, ad := range sid.accDids {
+			if who := sid.accOf[ad]; strings.HasPrefix(who, "eth:") && w.rng.Intn(3) == 0 {
+				accId = "eip155:1:" + who[4:]
+			}
 		}
 		w.r.UpdatePaymentAddress(creator, &didtypes.MsgUpdatePaymentAddress{Creator: creator.Bech(), AccountId: accId, Did: sid.did})
 		return
